@@ -2,6 +2,7 @@ package harness
 
 import (
 	"fmt"
+	"reflect"
 	"sort"
 	"strings"
 	"time"
@@ -43,9 +44,13 @@ type instance interface {
 }
 
 type adapter struct {
-	name  string
-	ops   []opDesc
-	alpha int // size of the key/value alphabet used for A
+	name string
+	ops  []opDesc
+	// covers lists the real method names the hand-written catalogue exercises; any other exported
+	// method of the type with a simple signature is discovered by reflection and added as an
+	// "auto:" entry (C01 only), so that a newly added public method is not silently outside the check
+	covers []string
+	alpha  int // size of the key/value alphabet used for A
 	// build creates a fresh instance holding the initial content. cfg selects a type-specific variant.
 	build func(init []int, cfg int) instance
 	ncfg  int
@@ -187,9 +192,10 @@ func (x *heapInst) observe() []string {
 }
 
 var heapAdapter = adapter{
-	name:  "heap",
-	alpha: 3,
-	ncfg:  2,
+	covers: []string{"Size", "IsEmpty", "Clear", "Peek", "GetValues", "Push", "Pop", "Delete", "Convert", "Merge", "Meld"},
+	name:   "heap",
+	alpha:  3,
+	ncfg:   2,
 	ops: []opDesc{
 		{name: "Size", single: true}, {name: "IsEmpty"}, {name: "Clear", single: true}, {name: "Peek", single: true},
 		{name: "GetValues"}, {name: "Push", nargs: 1, single: true}, {name: "Push2", nargs: 2, bRange: 3}, {name: "Pop", single: true},
@@ -251,9 +257,10 @@ func (x *bstInst) observe() []string {
 }
 
 var bstAdapter = adapter{
-	name:  "bstree",
-	alpha: 3,
-	ncfg:  2,
+	covers: []string{"Size", "Get", "Upsert", "Delete", "Traverse"},
+	name:   "bstree",
+	alpha:  3,
+	ncfg:   2,
 	ops: []opDesc{
 		{name: "Size", single: true}, {name: "Get", nargs: 1, single: true}, {name: "Upsert", nargs: 2, single: true},
 		{name: "Delete", nargs: 1, single: true}, {name: "Traverse"},
@@ -315,9 +322,10 @@ func (x *trieInst) observe() []string {
 }
 
 var trieAdapter = adapter{
-	name:  "trie",
-	alpha: 4,
-	ncfg:  2,
+	covers: []string{"Size", "Contains", "Put", "Get", "LongestPrefix", "StartsWith", "Keys"},
+	name:   "trie",
+	alpha:  4,
+	ncfg:   2,
 	ops: []opDesc{
 		{name: "Size", single: true}, {name: "Contains", nargs: 1, single: true}, {name: "Put", nargs: 2, single: true},
 		{name: "Get", nargs: 1, single: true}, {name: "LongestPrefix", nargs: 1}, {name: "StartsWith", nargs: 1}, {name: "Keys"},
@@ -407,7 +415,10 @@ var queueOps = []opDesc{
 	{name: "Search", nargs: 1, single: true}, {name: "Size", single: true}, {name: "Clear", single: true},
 }
 
-var queueAdapter = adapter{name: "queue", alpha: 3, ncfg: 1, ops: queueOps,
+var queueCovers = []string{"Enqueue", "Dequeue", "Peek", "Search", "Size", "Clear"}
+var stackCovers = []string{"Push", "Pop", "Peek", "Search", "Size"}
+
+var queueAdapter = adapter{name: "queue", alpha: 3, ncfg: 1, ops: append([]opDesc(nil), queueOps...), covers: queueCovers,
 	build: func(init []int, cfg int) instance {
 		q := queue.New[int]()
 		for _, v := range init {
@@ -416,7 +427,7 @@ var queueAdapter = adapter{name: "queue", alpha: 3, ncfg: 1, ops: queueOps,
 		return &queueInst{q: q}
 	}}
 
-var lqueueAdapter = adapter{name: "lqueue", alpha: 3, ncfg: 1, ops: queueOps,
+var lqueueAdapter = adapter{name: "lqueue", alpha: 3, ncfg: 1, ops: append([]opDesc(nil), queueOps...), covers: queueCovers,
 	build: func(init []int, cfg int) instance {
 		first := 1
 		if len(init) > 0 {
@@ -478,7 +489,7 @@ var stackOps = []opDesc{
 	{name: "Search", nargs: 1, single: true}, {name: "Size", single: true},
 }
 
-var stackAdapter = adapter{name: "stack", alpha: 3, ncfg: 1, ops: stackOps,
+var stackAdapter = adapter{name: "stack", alpha: 3, ncfg: 1, ops: append([]opDesc(nil), stackOps...), covers: stackCovers,
 	build: func(init []int, cfg int) instance {
 		s := stack.New[int]()
 		for _, v := range init {
@@ -487,7 +498,7 @@ var stackAdapter = adapter{name: "stack", alpha: 3, ncfg: 1, ops: stackOps,
 		return &stackInst{s: s}
 	}}
 
-var lstackAdapter = adapter{name: "lstack", alpha: 3, ncfg: 1, ops: stackOps,
+var lstackAdapter = adapter{name: "lstack", alpha: 3, ncfg: 1, ops: append([]opDesc(nil), stackOps...), covers: stackCovers,
 	build: func(init []int, cfg int) instance {
 		first := 1
 		if len(init) > 0 {
@@ -578,9 +589,10 @@ func (x *cacheInst) observe() []string {
 }
 
 var cacheAdapter = adapter{
-	name:  "cache",
-	alpha: 3,
-	ncfg:  8,
+	covers: []string{"Set", "SetDefault", "Get", "Update", "Delete", "DeleteExpired", "Flush", "List", "Count", "MapToCache", "IsExpired"},
+	name:   "cache",
+	alpha:  3,
+	ncfg:   8,
 	ops: []opDesc{
 		{name: "Set", nargs: 2, single: true}, {name: "SetDefault", nargs: 2}, {name: "Get", nargs: 1, single: true},
 		{name: "Update", nargs: 2, single: true}, {name: "Delete", nargs: 1, single: true}, {name: "DeleteExpired"},
@@ -605,6 +617,165 @@ var cacheAdapter = adapter{
 		}
 		return x
 	},
+}
+
+// subject returns the container an instance wraps (for method discovery and "auto:" calls).
+func subject(inst instance) any {
+	switch x := inst.(type) {
+	case *heapInst:
+		return x.h
+	case *bstInst:
+		return x.b
+	case *trieInst:
+		return x.t
+	case *queueInst:
+		if x.q != nil {
+			return x.q
+		}
+		return x.lq
+	case *stackInst:
+		return x.s
+	case *cacheInst:
+		return x.c
+	}
+	return nil
+}
+
+var durationType = reflect.TypeOf(time.Duration(0))
+var errorType = reflect.TypeOf((*error)(nil)).Elem()
+
+func simpleArg(t reflect.Type) bool {
+	switch t.Kind() {
+	case reflect.Int, reflect.Int64, reflect.String, reflect.Bool:
+		return true
+	}
+	return false
+}
+
+// discoverAutoOps adds an "auto:<Method>" catalogue entry for every exported method of the
+// adapter's container type that the hand-written catalogue does not cover and whose parameters
+// are all int, string, bool or time.Duration.
+var autoOpsFound, autoOpsSkipped []string
+
+func discoverAutoOps(ad *adapter) {
+	inst := ad.build(nil, 0)
+	sub := subject(inst)
+	if sub == nil {
+		return
+	}
+	cov := map[string]bool{}
+	for _, n := range ad.covers {
+		cov[n] = true
+	}
+	t := reflect.TypeOf(sub)
+	for i := 0; i < t.NumMethod(); i++ {
+		m := t.Method(i)
+		if cov[m.Name] || m.Type.IsVariadic() {
+			continue
+		}
+		ok := true
+		for j := 1; j < m.Type.NumIn(); j++ {
+			if !simpleArg(m.Type.In(j)) {
+				ok = false
+			}
+		}
+		if !ok {
+			autoOpsSkipped = append(autoOpsSkipped, ad.name+"."+m.Name)
+			continue
+		}
+		autoOpsFound = append(autoOpsFound, ad.name+"."+m.Name)
+		n := m.Type.NumIn() - 1
+		if n > 2 {
+			n = 2
+		}
+		ad.ops = append(ad.ops, opDesc{name: "auto:" + m.Name, nargs: n})
+	}
+}
+
+// autoCall calls a discovered method by reflection; results are rendered without addresses, and
+// returned slices and maps are read element by element (data handed back to the caller).
+func autoCall(inst instance, ad *adapter, o OpCall) string {
+	sub := subject(inst)
+	m := reflect.ValueOf(sub).MethodByName(strings.TrimPrefix(o.Op, "auto:"))
+	if !m.IsValid() {
+		panic("harness: discovered method vanished: " + o.Op)
+	}
+	mt := m.Type()
+	args := make([]reflect.Value, mt.NumIn())
+	ints := []int{o.A, o.B}
+	ni := 0
+	for j := range args {
+		at := mt.In(j)
+		v := reflect.New(at).Elem()
+		switch {
+		case at == durationType:
+			v.SetInt(int64(cache.NoExpiration))
+		case at.Kind() == reflect.Int || at.Kind() == reflect.Int64:
+			v.SetInt(int64(ints[ni%2]))
+			ni++
+		case at.Kind() == reflect.String:
+			if ad.name == "trie" {
+				v.SetString(tk(ints[ni%2]))
+			} else {
+				v.SetString(ck(ints[ni%2]))
+			}
+			ni++
+		case at.Kind() == reflect.Bool:
+			v.SetBool(ints[ni%2]%2 == 0)
+			ni++
+		}
+		args[j] = v
+	}
+	var b strings.Builder
+	for _, r := range m.Call(args) {
+		renderAuto(&b, r, 0)
+		b.WriteByte(' ')
+	}
+	return b.String()
+}
+
+func renderAuto(b *strings.Builder, r reflect.Value, depth int) {
+	if !r.IsValid() {
+		b.WriteString("nil")
+		return
+	}
+	switch r.Kind() {
+	case reflect.Int, reflect.Int8, reflect.Int16, reflect.Int32, reflect.Int64:
+		fmt.Fprint(b, r.Int())
+	case reflect.Uint, reflect.Uint8, reflect.Uint16, reflect.Uint32, reflect.Uint64:
+		fmt.Fprint(b, r.Uint())
+	case reflect.String:
+		b.WriteString(r.String())
+	case reflect.Bool:
+		fmt.Fprint(b, r.Bool())
+	case reflect.Float32, reflect.Float64:
+		fmt.Fprint(b, r.Float())
+	case reflect.Slice, reflect.Array:
+		fmt.Fprintf(b, "[%d:", r.Len())
+		for i := 0; i < r.Len() && i < 64 && depth < 2; i++ {
+			renderAuto(b, r.Index(i), depth+1)
+			b.WriteByte(',')
+		}
+		b.WriteByte(']')
+	case reflect.Map:
+		n := 0
+		it := r.MapRange()
+		for it.Next() {
+			_ = it.Value().Kind()
+			n++
+		}
+		fmt.Fprintf(b, "map[%d]", n)
+	case reflect.Interface, reflect.Pointer:
+		if r.IsNil() {
+			b.WriteString("nil")
+		} else if r.Type().Implements(errorType) {
+			b.WriteString("err")
+		} else {
+			b.WriteString(r.Type().String())
+		}
+	default:
+		b.WriteString(r.Type().String())
+	}
 }
 
 var adapters = []*adapter{&heapAdapter, &bstAdapter, &trieAdapter, &queueAdapter, &lqueueAdapter, &stackAdapter, &lstackAdapter, &cacheAdapter}
